@@ -448,22 +448,27 @@ func checkMain(prop, tier string) int {
 			r2 := runWorker(j, true, ".j1")
 			l1 := lastJournalLine(j, ".j1")
 			if !r2.crashed {
-				toolErrors++
-				fmt.Fprintf(os.Stderr, "TOOL-ERROR job=%s worker died (exit %d) but the journal re-run completed; stderr: %s\n", j.ID, ro.exit, clip(ro.stderr, 1500))
-				continue
-			}
-			r3 := runWorker(j, true, ".j2")
-			l2 := lastJournalLine(j, ".j2")
-			_ = r3
-			if l1 != "" && l1 == l2 {
-				fr := &JobResult{Job: j, Found: &Found{V: &Viol{Props: []string{prop, "C17"}, Class: "fatal",
-					Msg: "worker process died with a fatal runtime error while executing: " + l1 + "\n" + clip(tailLines(r2.stderr, 12), 1500)}}}
-				ro.res = fr
+				// the same job ran to completion in journal mode: the first death was transient
+				// (e.g. the process was killed from outside under memory pressure); the complete
+				// run is what is reported, with a note
+				fmt.Fprintf(os.Stderr, "NOTE job=%s first worker died (exit %d); the journal re-run completed and is used\n", j.ID, ro.exit)
+				r2.res.Notes = append(r2.res.Notes, fmt.Sprintf("first worker process died (exit %d) without result; this is the complete journal-mode re-run", ro.exit))
+				ro = r2
 				results[i] = ro
 			} else {
-				toolErrors++
-				fmt.Fprintf(os.Stderr, "TOOL-ERROR job=%s worker died, journal attribution unstable (%q vs %q); stderr: %s\n", j.ID, l1, l2, clip(ro.stderr, 1500))
-				continue
+				r3 := runWorker(j, true, ".j2")
+				l2 := lastJournalLine(j, ".j2")
+				_ = r3
+				if l1 != "" && l1 == l2 {
+					fr := &JobResult{Job: j, Found: &Found{V: &Viol{Props: []string{prop, "C17"}, Class: "fatal",
+						Msg: "worker process died with a fatal runtime error while executing: " + l1 + "\n" + clip(tailLines(r2.stderr, 12), 1500)}}}
+					ro.res = fr
+					results[i] = ro
+				} else {
+					toolErrors++
+					fmt.Fprintf(os.Stderr, "TOOL-ERROR job=%s worker died, journal attribution unstable (%q vs %q); stderr: %s\n", j.ID, l1, l2, clip(ro.stderr, 1500))
+					continue
+				}
 			}
 		}
 		r := ro.res
